@@ -159,6 +159,9 @@ Definition child_tot (k : nat) (t : tree) (x : N) : Z :=
 Definition weight (k : nat) (ss : list sample) : Z :=
   sumZ (map (fun s => if is_nil (s_stack s) then 0 else nth k (s_values s) 0)%Z ss).
 
+(* all self values together: every sample with a frame adds its value to exactly one self (its leaf) *)
+Definition self_sum (k : nat) (t : tree) : Z := sumZ (map (fun n => fst (val_at k n)) t).
+
 (* boolean oracle used on OBSERVED rows *)
 Definition node_conserves (k : nat) (t : tree) (n : node) : bool :=
   Z.eqb (snd (val_at k n)) (wrap64 (fst (val_at k n) + child_tot k t (n_id n))).
@@ -169,7 +172,8 @@ Fixpoint ids_distinct (l : list N) : bool :=
   end.
 Definition rows_conserve (k : nat) (t : tree) (ss : list sample) : bool :=
   forallb (node_conserves k t) t &&
-  Z.eqb (wrap64 (child_tot k t 0)) (wrap64 (weight k ss)).
+  Z.eqb (wrap64 (child_tot k t 0)) (wrap64 (weight k ss)) &&
+  Z.eqb (wrap64 (self_sum k t)) (wrap64 (weight k ss)).
 Definition rows_wellformed (ntypes : nat) (t : tree) : bool :=
   ids_distinct (map n_id t) &&
   forallb (fun n => negb (N.eqb (n_id n) 0) && Nat.eqb (length (n_vals n)) ntypes) t.
